@@ -135,29 +135,31 @@ def actionItems (t : SymType) : List Item :=
   t.choices.map (fun c => Item.fn (actionName t.name c) (actionParams c) (.named t.name))
 
 /-- the argument the reduce arm passes for a right-nulled content symbol (`params` closure in base.rs) -/
-def nulledArg (ts : List SymType) (sym : String) : Arg :=
+def nulledArg (fx : Fixes) (ts : List SymType) (sym : String) : Arg :=
   match typeOf ts sym with
-  | some { kind := .ref _ true, .. } => .boxNone sym
+  | some { kind := .ref _ true, optional := opt, .. } =>
+    -- repaired: `Box::new(None)` only for `type A = Box<B>`; an optional recursive ref is `Option<Box<B>>`
+    if fx.optBox && opt then .none sym else .boxNone sym
   | _ => .none sym
 
-def armArgs (ts : List SymType) (len : Nat) : Nat → List (Nat × RSym) → List Arg
+def armArgs (fx : Fixes) (ts : List SymType) (len : Nat) : Nat → List (Nat × RSym) → List Arg
   | _, [] => []
   | k, a :: rest =>
-    if a.1 < len then Arg.p k a.2.name :: armArgs ts len (k + 1) rest
-    else nulledArg ts a.2.name :: armArgs ts len k rest
+    if a.1 < len then Arg.p k a.2.name :: armArgs fx ts len (k + 1) rest
+    else nulledArg fx ts a.2.name :: armArgs fx ts len k rest
 
 def upTo : Nat → Nat → List Nat
   | lo, hi => (List.range (hi + 1 - lo)).map (· + lo)
 
 /-- the calls of one production's reduce arm(s) (`reduce_match_arms`) -/
-def prodCalls (ts : List SymType) (nt : String) (c : Choice) (p : AProd) : List Call :=
+def prodCalls (fx : Fixes) (ts : List SymType) (nt : String) (c : Choice) (p : AProd) : List Call :=
   let f := actionName nt c
   let rhsLen := p.rhs.length
   let cr := contentRhs p
   if rhsLen == 0 then [⟨f, [.ctx]⟩]
   else if cr.isEmpty then [⟨f, [.ctx]⟩]
-  else if p.rnLen == rhsLen then [⟨f, .ctx :: armArgs ts rhsLen 0 cr⟩]
-  else (upTo p.rnLen rhsLen).map (fun len => ⟨f, .ctx :: armArgs ts len 0 cr⟩)
+  else if p.rnLen == rhsLen then [⟨f, .ctx :: armArgs fx ts rhsLen 0 cr⟩]
+  else (upTo p.rnLen rhsLen).map (fun len => ⟨f, .ctx :: armArgs fx ts len 0 cr⟩)
 
 /-- position of production number `i` among the productions of its nonterminal (`Production.ntidx`) -/
 def ntidxOf (g : AGrammar) (i : Nat) (p : AProd) : Nat := ((g.prods.take i).filter (·.nt == p.nt)).length
@@ -177,11 +179,11 @@ def choiceOfProd (g : AGrammar) (ts : List SymType) (i : Nat) (p : AProd) : Opti
   | none => none
 
 /-- calls in file order: reduce arms follow `grammar.productions()`, unreachable nonterminals skipped -/
-def reduceCalls (g : AGrammar) (ts : List SymType) : List Call :=
+def reduceCalls (fx : Fixes) (g : AGrammar) (ts : List SymType) : List Call :=
   (enumFrom 0 g.prods).flatMap (fun ip =>
     if ntReach g ip.2.nt then
       match choiceOfProd g ts ip.1 ip.2 with
-      | some c => prodCalls ts ip.2.nt c ip.2
+      | some c => prodCalls fx ts ip.2.nt c ip.2
       | none => []
     else [])
 
@@ -203,19 +205,22 @@ def vecLabelsOf (t : SymType) : List String :=
       | _ => [])
   | _ => []
 
-def skeleton (g : AGrammar) (ts : List SymType) : Skel :=
+def skeleton (fx : Fixes) (g : AGrammar) (ts : List SymType) : Skel :=
   let rts := g.terms.filter (fun t => t.content && t.reach)
   let rnts := g.nts.filter (·.reach)
   let ntItems := rnts.flatMap (fun nt => match typeOf ts nt.name with
     | some t => typeItems g.loc t ++ actionItems t
     | none => [])
   { reserved := ["Input", "Ctx", "Token", "RustemoToken", "TokenKind", "Context"]
-      ++ (if g.loc then ["ValSpan", "C"] else []),
+      -- `use rustemo::{ValSpan, Context as C}` before the repair, `Context as _` after
+      ++ (if g.loc then (if fx.ctxAlias then ["ValSpan"] else ["ValSpan", "C"]) else []),
     items := rts.flatMap (terminalItems g.loc) ++ ntItems,
-    calls := rts.map (fun t => ⟨toSnake t.name, [.ctx, .token]⟩) ++ reduceCalls g ts,
+    calls := rts.map (fun t => ⟨toSnake t.name, [.ctx, .token]⟩) ++ reduceCalls fx g ts,
     prodKinds := prodKinds g,
     vecAlts := rnts.flatMap (fun nt => match typeOf ts nt.name with | some t => vecAltsOf t | none => []),
-    vecLabels := rnts.flatMap (fun nt => match typeOf ts nt.name with | some t => vecLabelsOf t | none => []) }
+    -- repaired: the body uses the declared name, nothing is assumed about it any more
+    vecLabels := if fx.vecLabel then [] else
+      rnts.flatMap (fun nt => match typeOf ts nt.name with | some t => vecLabelsOf t | none => []) }
 
 /-! ## the checker -/
 
